@@ -40,6 +40,11 @@ fn main() {
     let t0 = Instant::now();
     let tier = if thorough { "thorough" } else { "quick" };
     let mut cases = scen_tr::cases(thorough, seed);
+    if prop == "C02" {
+        // C02's Taproot part: the signing cases on dealer keys (every share is compared with the
+        // RFC 9591 / BIP-340 reference computation); the remaining Taproot cases belong to C18
+        cases.retain(|c| c.variant == 0 && (c.aux >> 4) & 1 == 0);
+    }
     if let Some(k) = only_case {
         cases = vec![cases[k].clone()];
     }
